@@ -28,8 +28,42 @@ CHECKS = {
          "All named constants, Display/Debug of every integer of each domain, all conversions over all u16/u8 values, SignatureScheme split and key_bits for all 65536 groups.",
          "Trusts the harness's IANA tables; unknown new identifiers printed for unlisted values are tolerated (so adding constants upstream is not an alarm).", "4/C17"),
 }
-# filled in as checks are added
-EXTRA = {}
+
+CHECKS.update({
+ "C01": ("proptest-generated inputs (byte soup, every model encoder with 0..3 corruptions, allocation-dense shapes, asset prefixes) through ~120 entry points under a counting allocator, panic capture and a watchdog; generated operation histories on the defragmenter; libFuzzer campaigns in the thorough tier",
+         "Every public parsing entry point is called on every generated input with generated extra arguments; results are formatted; a panic (debug assertions and overflow checks are on), an allocation beyond 64 KiB + K*len, or a stall is a violation. Histories of up to 40 (thorough 700) operations drive one TlsRecordsParser to the 10 MiB cap. Absence of panics cannot be established by sampling; the evidence reports how much was explored.",
+         "Termination is observed through a watchdog, not proved; allocation is counted per calling thread.", "4/C01"),
+ "C06": ("metamorphic relation P(b) vs P(b++x) over 36 self-delimiting parsers with proptest-generated structures, corruptions and suffixes; pointer-provenance oracle over every reachable slice (hand-written visitor); defragmenter provenance over generated histories",
+         "Appending bytes must not change value or outcome class and must extend the remainder; every non-empty slice reachable from a returned value must lie inside the consumed part of the caller's buffer (or, for defragmented results, inside the internal buffer exposed by the hook).",
+         "Values compared after conversion to model types; empty slices carry no provenance.", "4/C06"),
+ "C07": ("model-based stateful testing: proptest-generated operation histories interpreted against a reference model (accumulate then one-shot parse) and a shadow fresh parser; targeted split / refusal / size-cap generators",
+         "k-way splits of generated handshake and heartbeat payloads, refusals (foreign type, nocopy, 10 MiB) with state preservation observed through the hook, histories of up to 120 operations in lock step with the model, exact boundary of the size limit.",
+         "The model answers with the public one-shot parser on its own concatenation; where the statement is silent the model adopts the implementation's observable state.", "4/C07"),
+ "C09": ("proptest-generated serializable values; oracle = byte equality with the harness's RFC encoder + parse-back round trip + re-serialization; unsupported values must give NotYetImplemented",
+         "Messages, records (constructed and obtained by parsing), extensions and extension lists within wire limits (incl. bodies beyond 16 bits); every unsupported handshake variant, message kind and extension.",
+         "The harness's RFC encoder is the reference for emitted bytes; built with the crate's serialize feature.", "4/C09"),
+ "C10": ("exhaustive enumeration of DTLS declared lengths x content types x cut points + proptest-generated DTLS records, handshake headers over full 24-bit ranges and datagrams, against reference header decoders and the model encoder",
+         "13-byte header fields (epoch / 48-bit sequence split), cap, Incomplete contract with exact Needed, fragment predicate and header fields verbatim, supported bodies, multi-record datagrams.",
+         "Quick tier samples the cuts beyond the record end for lengths > 512 (full in thorough).", "4/C10"),
+ "C11": ("exhaustive enumeration of every value of 38 enumerated wire fields inside generated well-formed templates",
+         "Each field's whole integer domain is written into a well-formed structure and read back from the parsed value, for k template variants.",
+         "ServerHello legacy version excluded as in the statement.", "4/C11"),
+ "C13": ("proptest-generated DH / EC / signature values with an RFC reference encoder, exhaustive curve-type and named-group sweep, reference decoder for parse_content_and_signature",
+         "Exact decode and self-delimitation with trailing bytes, prefix rejection, all 256 curve types, all 65536 named groups, both negotiation flag values against inputs of both forms.",
+         "Reference decoder for the two DigitallySigned forms is written in the harness.", "4/C13"),
+ "C14": ("proptest-generated SCT lists with an RFC 6962 reference encoder; targeted overlong-entry / overlong-list corruptions",
+         "Lists of 0..8 SCTs with full-range fields, single-entry parser, entries exceeding the list, lists exceeding the input, prefixes.",
+         "Model encoder per RFC 6962 3.2/3.3.", "4/C14"),
+ "C15": ("proptest-generated parsed and constructed hellos (TLS and DTLS); oracle = accessor equals (and aliases) the field, rand_time/rand_bytes by reference computation, cipher accessors against the harness's own registry table",
+         "All trait accessors and inherent getters on parsed TLS/DTLS ClientHello, constructed values with randoms of any length, ServerHello constructor and getters.",
+         "For randoms shorter than 4 bytes only absence of panics is required.", "4/C15"),
+ "C16": ("differential: multi-record parsers vs an explicit loop over the single-record parser on proptest-generated record concatenations with six kinds of endings; alias differential on soup and corrupted structures",
+         "Records, remainder position and failure condition must match the loop exactly; the deprecated alias must be identical including errors.",
+         "Records compared after conversion to model types.", "4/C16"),
+ "C18": ("configuration enumeration (4 feature sets, complete) + differential execution of a proptest-generated corpus under the three buildable configurations; source scan and compile-time probe for the static sub-claims",
+         "Build status per feature set, compile_error text, byte-identical per-input digests of 30 entry points + registry + state machine + defragmenter across configurations; forbid(unsafe_code) and absence of the unsafe token; Send + Sync of 45 public types by type-checking a probe package.",
+         "The static sub-claims are compile-time facts, not decided by generated inputs (stated in DESIGN.md).", "4/C18"),
+})
 
 def main():
     checks = []
